@@ -258,7 +258,13 @@ def get_trig_moment_c(cx):
     IU = z3.Real('imaginary_unit'); xq, nq = z3.Real('xq'), z3.Int('nq')
     cx.glob('I', VR(IU))             # the arithmetic on complex values is not modelled: i is an opaque non-zero constant
     cx.axiom(IU != 0, z3.ForAll([xq, nq], z3.Implies(xq != 0, POW(xq, nq) != 0)))
-    cx.call('cf', lambda ex, st, r, a, kw: VR(CF(toint(a[0]))) if a[0].kind == 'int' else V('opaque'), trusted='Distribution.cf (C08 bounded check against the defining integral)')
+    def cf(ex, st, r, a, kw):
+        if a[0].kind != 'int': return V('opaque')
+        # D34: the closed form of a characteristic function may be 0/0 at t = 0 (DiscreteUniform): it is only evaluated away from 0
+        ex.need(st, toint(a[0]) != 0, 'closed-form-cf-away-from-0@0', 'safety')
+        return VR(CF(toint(a[0])))
+    cx.call('cf', cf, trusted='Distribution.cf(t) for t != 0 (C08 bounded check against the defining integral)')
+    cx.attr('is_number', lambda ex, st, o: VB(True)); cx.call('N', lambda ex, st, r, a, kw: a[0])
     cx.call('SSymbol', lambda ex, st, r, a, kw: V('ref', z3.Const('t', REF)))
     cx.call('diff', lambda ex, st, r, a, kw: V('opaque', None, order=a[2]))
     cx.call('get_moment', lambda ex, st, r, a, kw: VR(MOM(toint(a[0]))), trusted='Distribution.get_moment (C08 contracts)')
